@@ -59,10 +59,23 @@ PARAMS = {
     "tensora.tensor.default_format_given_nnz": {"dimensions": "SeqD"},
 }
 # locals inference cannot type
-SEEDS = {
-    "tensora.tensor.Tensor.items.<locals>.recurse": {"prefix": "SeqL", "i_level": "ValL"},
-    "tensora.tensor.tree_to_indices_and_values.<locals>.recurse": {"i_level": "ValL"},
+# Parameter spaces of the single nested walker of these functions, by POSITION (names are free).  If the
+# outer function no longer has exactly one nested function the seed is simply not applied (its subscripts
+# stay untyped; C09.structure-semantics / construction-semantics decide those functions semantically).
+SEEDS_BY_OUTER = {
+    "tensora.tensor.Tensor.items": {0: "ValL", 1: "SeqL"},
+    "tensora.tensor.tree_to_indices_and_values": {1: "ValL"},
 }
+
+
+def seeds_for(func):
+    if func.parent is None:
+        return None
+    spec = SEEDS_BY_OUTER.get(func.parent.qual)
+    if not spec:
+        return None
+    params = [a.arg for a in func.node.args.args]
+    return {params[i]: t for i, t in spec.items() if i < len(params)}
 # constructor / call sinks: qualified callee -> {positional index or keyword: required type}
 SINKS = {
     "tensora.compile._cffi_ownership.taco_structure_to_cffi": {0: "SeqL", "mode_types": "SeqL", "dimensions": "SeqD", "mode_ordering": "Perm"},
@@ -163,7 +176,7 @@ class Typer(ast.NodeVisitor):
             if c:
                 self.cls[a.arg] = c
         self.env.update(PARAMS.get(func.qual, {}))
-        seeds = SEEDS.get(func.qual)
+        seeds = seeds_for(func)
         self.seeded = set()
         if seeds:
             self.env.update(seeds)
@@ -519,17 +532,10 @@ def run_axis(ctx, ix, rule, modules=None, exceptions=None):
                 continue  # nested functions handled below with the parent's environment
             t = Typer(ix, ct, f, report)
             t.visit(f.node)
-            if f.qual in SEEDS:
-                seen_seeds.add(f.qual)
             for q2, g in ix.funcs.items():
                 if g.parent is f:
                     t2 = Typer(ix, ct, g, report, t.env, t.cls)
                     t2.neutral = dict(t.neutral)
                     t2.visit(g.node)
-                    if g.qual in SEEDS:
-                        seen_seeds.add(g.qual)
-    for q in SEEDS:
-        if q.rsplit(".<locals>", 1)[0].rsplit(".", 1)[0] and q not in ix.funcs:
-            raise AnalysisError(f"anchor vanished: seeded function {q}")
     ctx.extra.setdefault("axis_typing", {}).update(results)
     return results
